@@ -275,6 +275,17 @@ def run_check(pid, tier='quick', seed=1, repo='/repo', workers=None,
         finally:
             ex.shutdown(wait=False, cancel_futures=True)
 
+    dump = os.environ.get('EVOSIM_DUMP')
+    if dump:
+        with open(dump, 'w') as fp:
+            for (index, scn, v) in viols:
+                fp.write(json.dumps({'index': index, 'v': v,
+                                     'known': bool(match_known(known, pid,
+                                                               v))},
+                                    sort_keys=True, default=repr) + '\n')
+    if os.environ.get('EVOSIM_NO_SHRINK'):
+        for (index, scn, v) in viols[:0]:
+            pass
     # classify violations
     known_hits = collections.OrderedDict()
     fresh = []
@@ -293,6 +304,10 @@ def run_check(pid, tier='quick', seed=1, repo='/repo', workers=None,
     seen_rules = set()
     min_deadline = time.time() + plan.get('shrink_wall', 240)
     for (index, scn, v) in fresh:
+        if os.environ.get('EVOSIM_NO_SHRINK'):
+            out.write('UNSHRUNK %d %s %s\n' % (index, v['rule'], json.dumps(
+                v['detail'], sort_keys=True, default=repr)[:300]))
+            continue
         if v['rule'] in seen_rules:
             continue            # one replay per rule per run is enough
         seen_rules.add(v['rule'])
@@ -370,9 +385,10 @@ def run_check(pid, tier='quick', seed=1, repo='/repo', workers=None,
                  ' INCOMPLETE' if incomplete else ''))
     if reported:
         return 1
-    if errors or harness_nonreplay or incomplete or evaluations == 0:
-        # never exit 0 on a run that did not do its job
-        if len(errors) > max(2, evaluations // 50) or harness_nonreplay \
-                or incomplete or evaluations == 0:
-            return 2
+    # never exit 0 on a run that did not do its job: no scenario executed,
+    # violations that do not replay, or more than a few harness errors
+    if evaluations == 0 or harness_nonreplay or \
+            len(errors) > max(2, evaluations // 50) or \
+            evaluations < min(count, 20):
+        return 2
     return 0
